@@ -266,7 +266,7 @@ def run_retry(inp):
     tr = T0(iosim.secs(ri), sel.factory)
     start = clock.now
     code, ret = 0, []
-    with clock.installed(), iosim.alarm(10.0):
+    with clock.installed(), iosim.alarm(120.0):
         try:
             val, rest = tr._retry(callback, iosim.secs(T))
             t = iosim.ticks(rest)
@@ -340,7 +340,7 @@ def _one_call(fn, clock, sel, lock, locks=None, other=None):
         other.ans = OTHER_HELD
     start = clock.now
     try:
-        with iosim.alarm(10.0):
+        with iosim.alarm(120.0):
             pkt = fn()
         outcome = [0, bytes(pkt)]
     except StopIteration as exc:
@@ -430,7 +430,7 @@ def run_client_send(inp):
     start = clock.now
     code = 0
     try:
-        with clock.installed(), iosim.alarm(10.0):
+        with clock.installed(), iosim.alarm(120.0):
             try:
                 client.send_packet(c04._typed(chunks), timeout=_py_timeout(T))
             except BaseException as exc:  # noqa: BLE001
@@ -441,7 +441,7 @@ def run_client_send(inp):
         import time as _t
         wire = b""
         want = bytes(script.accepted)
-        deadline = _t.monotonic() + 2.0
+        deadline = _t.monotonic() + 120.0
         while len(wire) < len(want) and _t.monotonic() < deadline:     # loopback TCP delivery is asynchronous
             wire += iosim.drain(peer)
         if wire != want:
@@ -521,7 +521,7 @@ def run_udp_send(inp):
     start = clock.now
     code = 0
     try:
-        with clock.installed(), iosim.alarm(10.0):
+        with clock.installed(), iosim.alarm(120.0):
             try:
                 client.send_packet(data, timeout=_py_timeout(T))
             except BaseException as exc:  # noqa: BLE001
@@ -606,7 +606,7 @@ def run_retry_env(inp):
 
     tr = T0(iosim.secs(ri), EnvSelector)
     code, ret = 0, []
-    with clock.installed(), iosim.alarm(10.0):
+    with clock.installed(), iosim.alarm(120.0):
         try:
             val, rest = tr._retry(callback, iosim.secs(T))
             t = iosim.ticks(rest)
@@ -629,7 +629,7 @@ def run_async_iter(inp):
     _, T, arr = inp[:3]
     T = iosim.sx_tmo(T)
     out = []
-    with iosim.alarm(10.0), detloop.running() as loop:
+    with iosim.alarm(120.0), detloop.running() as loop:
         backend = AsyncIOBackend()
         saved = _time.perf_counter
         _time.perf_counter = loop.time
@@ -697,7 +697,7 @@ def run_real_recv(inp):
         class TLSWriter(realio.Writer):
             def run(self):
                 try:
-                    self.sock.settimeout(8.0)
+                    self.sock.settimeout(300.0)
                     self.sock = sctx.wrap_socket(self.sock, server_side=True)
                     pos = 0
                     for k in self.pieces:
@@ -714,7 +714,7 @@ def run_real_recv(inp):
         writer = TLSWriter(b, stream, pieces)
         writer.start()
         transport = SSLStreamTransport(a, tlskit.client_ctx(ver), 1.0, server_hostname="localhost", server_side=False,
-                                       handshake_timeout=10.0, shutdown_timeout=1.0, standard_compatible=False)
+                                       handshake_timeout=300.0, shutdown_timeout=1.0, standard_compatible=False)
         target = StreamEndpoint(transport, proto, max_recv_size=bufsize)
         peer = b
     else:
@@ -724,8 +724,8 @@ def run_real_recv(inp):
         target = TCPNetworkClient(sock, proto, max_recv_size=bufsize, retry_interval=1.0)
         if T == 0:
             # a zero timeout is only deterministic once everything has arrived: wait for the kernel to hold it all
-            writer.join(10.0)
-            deadline = _time.monotonic() + 5.0
+            writer.join(300.0)
+            deadline = _time.monotonic() + 300.0
             while _time.monotonic() < deadline:
                 avail = struct.unpack("i", fcntl.ioctl(sock.fileno(), termios.FIONREAD, b"\0\0\0\0"))[0]
                 if avail >= len(stream):
@@ -734,12 +734,12 @@ def run_real_recv(inp):
             import select as _select
             po = _select.poll()                 # ... and until the peer's FIN has been received (POLLRDHUP)
             po.register(sock.fileno(), _select.POLLRDHUP)
-            deadline = _time.monotonic() + 5.0
+            deadline = _time.monotonic() + 300.0
             while _time.monotonic() < deadline:
                 if any(ev & _select.POLLRDHUP for _fd, ev in po.poll(50)):
                     break
     try:
-        timeout = 10.0 if T is None else 0.0
+        timeout = 600.0 if T is None else 0.0
         if mode == 1:
             it = target.iter_received_packets(timeout=None if T is None else 0.0)
             fn = lambda: next(it)  # noqa: E731
@@ -747,7 +747,7 @@ def run_real_recv(inp):
             fn = lambda: target.recv_packet(timeout=timeout)  # noqa: E731
         for _ in range(ncalls):
             try:
-                with iosim.alarm(15.0):
+                with iosim.alarm(700.0):
                     pkt = fn()
                 out.append([0, realio.digest(bytes(pkt))])
             except StopIteration as exc:
@@ -758,7 +758,7 @@ def run_real_recv(inp):
                 out.append([iosim.exc_code(exc)])
     finally:
         target.close()
-        writer.join(12.0)
+        writer.join(300.0)
         try:
             peer.close()
         except Exception:
@@ -806,7 +806,7 @@ def oracle(inp):
         code, ret, waits, dt = out
         if code in (8, 9):
             return "_retry does not terminate"
-        f = _budget_failure(T, waits, [], sels, None, code, "_retry")
+        f = _budget_failure(T, waits, [], sels, None, code, "_retry", dt)
         if f:
             return f
         if code == 1 and T is not None and T > 0:
@@ -835,7 +835,7 @@ def oracle(inp):
             if outcome[0] in (8, 9):
                 return "receive does not terminate"
             T = Ts[i] if Ts is not None else T_left
-            f = _budget_failure(T, waits, lockwaits, sels[used_sel:], lks[i], outcome[0], f"call {i}")
+            f = _budget_failure(T, waits, lockwaits, sels[used_sel:], lks[i], outcome[0], f"call {i}", dt)
             if f:
                 return f
             used_sel += len(waits)
@@ -857,7 +857,7 @@ def oracle(inp):
             return "send_packet does not terminate"
         if code == 0 and wire != want:
             return "send_packet returned without writing the packet"
-        return _budget_failure(T, waits, lockwaits, sels, _lock_of(lk), code, "send_packet")
+        return _budget_failure(T, waits, lockwaits, sels, _lock_of(lk), code, "send_packet", dt)
     if op == 9:
         import c11_threads
         enabled, final, send_free, recv_free = out
@@ -934,7 +934,7 @@ def oracle(inp):
             return f
         if outcome[0] in (8, 9):
             return "recv_packet does not terminate"
-        return _budget_failure(iosim.sx_tmo(T), waits, lockwaits, sels, _lock_of(lk), outcome[0], "udp recv_packet")
+        return _budget_failure(iosim.sx_tmo(T), waits, lockwaits, sels, _lock_of(lk), outcome[0], "udp recv_packet", dt)
     return None
 
 
@@ -1149,6 +1149,17 @@ def cases(tier, rng, escalate):
         pieces = [rng.choice([1, 2, 5, 100, 1500, 8000]) for _ in range(rng.randint(1, 12))]
         yield dict(input=[8, n, bufsize, k + 1, iosim.tmo_sx(T), spec, mode, [pieces, rng.choice([12, 13])]],
                    tags=_tags(8, T, ["real", f"mode{mode}", "leftover" if extra_bytes else "exact"]), nontrivial=True)
+    # ---- op 3, exhaustive: two would-block episodes separated by a partial write, against every pair of selector answers
+    # (ready early / ready late / not ready / overshoot): both halves of the budget through the sendmsg loop and send_all
+    for T in TS + [2, 5]:
+        for ri in RIS:
+            for sel in itertools.product([(1, 0), (1, 1), (1, 2), (0, 1), (0, 3), (0, 9), (1, 9)], repeat=2):
+                for lengths in ([3], [2, 3]):
+                    hs, iov = rng.choice([(1, 1), (1, 1024), (0, 1024)])
+                    s4 = [c04.ANS["eagain"], c04.ANS["s1"], c04.ANS["eintr"], c04.ANS["s1"]][: rng.randint(2, 4)]
+                    yield dict(input=[3, hs, iov, c04.mk_chunks(lengths), iosim.tmo_sx(T), iosim.tmo_sx(ri), 0,
+                                      [list(a) for a in s4], [list(a) for a in sel], 0],
+                               tags=_tags(3, T, ["send", "two-episodes"]), nontrivial=True)
     # ---- op 4 / 5: UDP client
     n4 = 1500 if thorough else 400
     for _ in range(n4):
